@@ -49,6 +49,20 @@ def signature_universes():
 
 
 def _one(args):
+    """one universe in a worker process; analysis problems come back as text (abstract values do not pickle)"""
+    from ..values import Unsupported as _U
+
+    try:
+        return _one_universe(args)
+    except _U as e:
+        return {"error": ("Unsupported", str(e))}
+    except Exception as e:  # noqa
+        import traceback
+
+        return {"error": (type(e).__name__, f"{e}\n{traceback.format_exc()[-1500:]}")}
+
+
+def _one_universe(args):
     repo, tier, base, idx, mode, owned = args
     program = Program(repo)
     if mode == "sig":
@@ -97,6 +111,14 @@ def run_universes(ctx, base="StateMachine", mode="full", owned=None):
             res = pool.map(_one, jobs, chunksize=1)
     else:
         res = [_one(j) for j in jobs]
+    for r in res:
+        if "error" in r:
+            from ..values import Unsupported as _U
+
+            kind, msg = r["error"]
+            if kind == "Unsupported":
+                raise _U(msg)
+            raise RuntimeError(f"{kind}: {msg}")
     return res
 
 
